@@ -180,6 +180,7 @@ func (c16) Gen(r *sim.RNG, tier string, idx int) *Scenario {
 		}
 		if r.Intn(4) == 0 {
 			tag++
+			sc.Ops[i].Install = true
 		}
 		sc.Ops[i].LoaderTag = fmt.Sprintf("L%d", tag)
 	}
@@ -242,7 +243,7 @@ func singleOpMain(file string) int {
 		return 2
 	}
 	store := sim.NewStore(f.World.Docs, f.Op.Faults)
-	res := ExecOp(f.Op, &Env{World: f.World, Store: store, OrderKey: f.OrderKey, Budget: StepBudgetDefault})
+	res := ExecOp(f.Op, &Env{World: f.World, Store: store, OrderKey: f.OrderKey, Budget: StepBudgetDefault, Fresh: true})
 	out, _ := json.Marshal(digestOp(res))
 	fmt.Printf("\nSINGLE-OP-DIGEST %s\n", out)
 	return 0
@@ -251,6 +252,7 @@ func singleOpMain(file string) int {
 var refMemo = map[uint64]opDigest{}
 
 func freshReference(w *model.World, op Op, key uint64) (opDigest, error) {
+	op.Install = false
 	f := singleOpFile{World: w, Op: op, OrderKey: key}
 	b, _ := json.Marshal(f)
 	h := sim.Mix(string(b))
@@ -293,6 +295,8 @@ func (c16) Run(sc *Scenario) *Verdict {
 		cur[i] = sc.Worlds[i].Clone()
 	}
 	key := sc.OrderKeys[0]
+	SetGlobalLoader("L0") // every history starts from the state of a fresh process
+	defer SetGlobalLoader("L0")
 	loaded := map[string]bool{} // URLs some earlier call has requested
 	lastWorld := -1
 	mutated, switched, burst := false, false, false
